@@ -32,7 +32,8 @@ DIMS = OrderedDict([
     ("nm", [1, 2, 4]),                          # formula units per cell (header field of the phonon file)      # row order of the static table (lattice rows move with their volumes)
     ("weights", ["increasing", "equal", "scaled", "int", "zero-first", "zero-last"]),
     ("poly_degree", [2, 1]),
-    ("pve", ["f", "E", "plus"]),        # number format of the P= V= E= header of each volume block (plain, exponent notation, explicit sign)
+    ("pve", ["f", "E", "plus"]),
+    ("static_nv", [None, 12, 4, 5]),      # the static table tabulated at its own volumes (another count than the phonon file's)        # number format of the P= V= E= header of each volume block (plain, exponent notation, explicit sign)
     ("lheader", [" lattice_a lattice_b lattice_c", "LATTICE_A LATTICE_B LATTICE_C", "a b c", "# lattice parameters (bohr)",
                  "lattice_a lattice_b lattice_c alpha beta gamma"]),    # the last one: three trailing columns (cell angles) after the axis lengths   # one-line header of the lattice block
 ])
@@ -42,6 +43,7 @@ def spec_of(case):
     s = {k: case[k] for k in ("nv", "lattice", "system", "compset", "static", "weights", "poly_degree")}
     s["nm"] = case.get("nm", 1)
     s["pve"] = case.get("pve", "f")
+    s["static_nv"] = case.get("static_nv")
     s["declare"] = case.get("declare", True)
     s["nq"], s["na"] = case["shape"]
     s["qha"] = dict(GRIDS[case["grid"]])
@@ -78,7 +80,7 @@ def run_case(case):
     viol = []
     MARGIN[0] = 0.0
     with K.scratch() as d, K.scratch() as elsewhere:
-        nvr = spec["nv"]
+        nvr = spec.get("static_nv") or spec["nv"]
         rows = {"given": None, "reversed": list(range(nvr))[::-1], "rotated": list(range(2, nvr)) + [0, 1]}[case.get("rows", "given")]
         skw = {"lattice_header": case["lheader"]} if case.get("lheader") else {}
         if "alpha" in skw.get("lattice_header", ""):
@@ -227,6 +229,8 @@ def canon(case):
             c["compset"] = "full21"
     if c["weights"].startswith("zero") and (c["shape"][0] < 2 or (c["weights"] == "zero-last" and c["shape"][0] < 3 and c["shape"][1] < 2)):
         c["weights"] = "increasing"           # some weighted optical / non-Gamma mode must remain (otherwise C_V = 0 everywhere)
+    if c.get("static_nv") == c["nv"]:
+        c["static_nv"] = None
     if c["lattice"] == "none":
         c["lheader"] = DIMS["lheader"][0]
     return c
